@@ -7,7 +7,9 @@ Require Import V.Model.UriSpec.
 Require Import V.Model.Uri.
 Require Import V.Model.UriBuilder.
 Require Import V.Oracle.C19Oracle.
+Require Import V.Model.UriSplit.
 Require Import V.Proofs.UriProofs.
+Require Import V.Proofs.UriGrammarProofs.
 Require Import V.Proofs.UriBuilderProofs.
 Open Scope Z_scope.
 
@@ -67,6 +69,14 @@ Proof.
   - apply keys_distinct_NoDup. now apply sort_keys_NoDup.
 Qed.
 
+Lemma reads_as_ok s u : parse s = POk u -> reads_as s (u_prefix u) (u_media u) (sort_params (u_params u)) = true.
+Proof.
+  intros H. destruct (parse_reads _ _ H) as [Hr Hps]. unfold reads_as. rewrite Hr.
+  rewrite str_eqb_refl. cbn [andb]. rewrite <- Hps.
+  pose proof (parse_wf _ _ H) as [_ [_ [[_ Hd] _]]].
+  apply params_equiv_perm; [now apply sort_keys_NoDup | apply sort_params_perm].
+Qed.
+
 Lemma oracle_parse_any s :
   let '(r1, d, r2) := parse_obs s in holds_parse_any s r1 d r2 = true.
 Proof.
@@ -74,6 +84,8 @@ Proof.
   pose proof (parse_wf _ _ E) as Hwf. rewrite (canon_reparse u Hwf).
   cbn [pobs_of holds_parse_any u_prefix u_media u_params].
   destruct (wf_obs_ok u Hwf) as [A [B [C D]]]. rewrite A, B, C, D. cbn [andb].
+  rewrite (reads_as_ok _ _ E). cbn [andb].
+  unfold canon_display. rewrite display_is_spec by apply Hwf. rewrite str_eqb_refl, andb_true_r.
   unfold pobs_same. rewrite !str_eqb_refl. cbn [andb].
   apply params_equiv_perm.
   - apply sort_keys_NoDup. apply Hwf.
